@@ -3,7 +3,7 @@
 ids=${@:-C01 C02 C03 C04 C05 C07 C08 C09 C10 C14 C15 C16 C17 C18 C19 C20 C06 C11 C12 C13}
 for c in $ids; do
   s=$(date +%s)
-  /venv/bin/python run.py $c --tier thorough > sweep-$c.out 2>&1; rc=$?
+  VERIF_REPO=${VP_RUN_REPO:-/repo} /venv/bin/python run.py $c --tier thorough > sweep-$c.out 2>&1; rc=$?
   echo "$c rc=$rc wall=$(( $(date +%s) - s ))s $(tail -1 sweep-$c.out | cut -c1-220)" >> sweep.log
   grep -E "^(VIOLATION|HARNESS-ERROR|KNOWN-FINDING)" sweep-$c.out | cut -c1-300 | head -8 >> sweep.log
 done
